@@ -61,30 +61,30 @@ def pairsOf {α : Type} : Prog α → Nat → List (Nat × Nat)
 
 /-- **the bracket matcher on a well-formed forest**: it reports the braces of the forest and
 continues behind it with the same stack -/
-theorem balancedPairs_prog : ∀ (p : Prog Tok), p.wf = true →
+theorem balancedPairs_prog_core : ∀ (p : Prog Tok), p.wfCore = true →
     ∀ (more : List Tok) (i : Nat) (st : List Nat),
     balancedPairs [123] [125] (p.flat ++ more) i st
       = pairsOf p i ++ balancedPairs [123] [125] more (i + p.size) st
   | .nil, _, _, _, _ => rfl
   | .leaf t rest, h, more, i, st => by
-    simp only [Prog.wf, Bool.and_eq_true] at h
+    simp only [Prog.wfCore, Bool.and_eq_true] at h
     simp only [Prog.flat, List.cons_append, pairsOf, Prog.size]
-    rw [bp_other h.1, balancedPairs_prog rest h.2]
+    rw [bp_other h.1, balancedPairs_prog_core rest h.2]
     congr 2; omega
   | .group op cl items rest, h, more, i, st => by
-    simp only [Prog.wf, Bool.and_eq_true] at h
+    simp only [Prog.wfCore, Bool.and_eq_true] at h
     obtain ⟨⟨⟨hop, hcl⟩, hwi⟩, hwr⟩ := h
     simp only [Prog.flat, List.cons_append, List.append_assoc, pairsOf, Prog.size]
-    rw [bp_open hop, balancedPairs_prog items hwi, bp_close hcl, balancedPairs_prog rest hwr]
+    rw [bp_open hop, balancedPairs_prog_core items hwi, bp_close hcl, balancedPairs_prog_core rest hwr]
     rw [show i + 1 + items.size = i + items.size + 1 by omega,
       show i + items.size + 1 + 1 = i + items.size + 2 by omega,
       show i + items.size + 2 + rest.size = i + (items.size + rest.size + 2) by omega]
   | .fn hdr k gap op cl body rest, h, more, i, st => by
-    simp only [Prog.wf, Bool.and_eq_true, decide_eq_true_eq] at h
-    obtain ⟨⟨⟨⟨⟨⟨⟨⟨⟨⟨hsl, hnf⟩, hwh⟩, hk⟩, hnm⟩, hgap⟩, hop⟩, hcl⟩, hwb⟩, hadj⟩, hwr⟩ := h
+    simp only [Prog.wfCore, Bool.and_eq_true, decide_eq_true_eq] at h
+    obtain ⟨⟨⟨⟨⟨⟨⟨⟨⟨hsl, hnf⟩, hwh⟩, hk⟩, hnm⟩, hgap⟩, hop⟩, hcl⟩, hwb⟩, hwr⟩ := h
     simp only [Prog.flat, List.cons_append, List.append_assoc, pairsOf, Prog.size]
-    rw [balancedPairs_prog hdr hwh, bp_gap gap hgap, bp_open hop, balancedPairs_prog body hwb,
-      bp_close hcl, balancedPairs_prog rest hwr]
+    rw [balancedPairs_prog_core hdr hwh, bp_gap gap hgap, bp_open hop, balancedPairs_prog_core body hwb,
+      bp_close hcl, balancedPairs_prog_core rest hwr]
     rw [show i + hdr.size + gap.length + 1 + body.size = i + hdr.size + gap.length + body.size + 1
         by omega,
       show i + hdr.size + gap.length + body.size + 1 + 1 = i + hdr.size + gap.length + body.size + 2
@@ -107,23 +107,37 @@ theorem pairsOf_perm {α : Type} : ∀ (p : Prog α) (i : Nat),
       (((pairsOf_perm body _).append (pairsOf_perm rest _)).cons _)
 
 /-- the blocks of a well-formed forest are listed strictly by their first token -/
-theorem blocksOf_sorted (p : Prog Tok) (h : p.wf = true) (i : Nat) :
-    (blocksOf p i).Pairwise (fun a b => a.s < b.s) := (tinv_of_wf p i h).bs
+theorem blocksOf_sorted_core (p : Prog Tok) (h : p.wfCore = true) (i : Nat) :
+    (blocksOf p i).Pairwise (fun a b => a.s < b.s) := (tinv_of_wfCore p i h).bs
 
 /-- **`get_blocks` on the token sequence of a well-formed forest** (token locations strictly
 increasing) returns exactly the blocks of the forest, in source order -/
-theorem getBlocks_prog {p : Prog Tok} (h : p.wf = true) (hpos : PosSorted p.flat) :
+theorem getBlocks_prog_core {p : Prog Tok} (h : p.wfCore = true) (hpos : PosSorted p.flat) :
     getBlocks p.flat = .ok p.blocks := by
   unfold getBlocks
-  have hbp := balancedPairs_prog p h [] 0 []
+  have hbp := balancedPairs_prog_core p h [] 0 []
   rw [List.append_nil] at hbp
   rw [hbp]
   simp only [balancedPairs, List.append_nil]
-  refine sortAsc_eq_of_perm hpos (pairsOf_perm p 0).symm (blocksOf_sorted p h 0) ?_
+  refine sortAsc_eq_of_perm hpos (pairsOf_perm p 0).symm (blocksOf_sorted_core p h 0) ?_
   intro b hb
   have hb' := (pairsOf_perm p 0).mem_iff.mp hb
   have := blocksOf_bounds p 0 b hb'
   rw [Prog.size_eq]
   omega
+
+/-! ## the same for `wf` forests (corollaries; `noAdj` is not needed for the blocks) -/
+
+theorem balancedPairs_prog (p : Prog Tok) (h : p.wf = true) (more : List Tok) (i : Nat)
+    (st : List Nat) :
+    balancedPairs [123] [125] (p.flat ++ more) i st
+      = pairsOf p i ++ balancedPairs [123] [125] more (i + p.size) st :=
+  balancedPairs_prog_core p ((Prog.wf_iff p).mp h).1 more i st
+
+theorem blocksOf_sorted (p : Prog Tok) (h : p.wf = true) (i : Nat) :
+    (blocksOf p i).Pairwise (fun a b => a.s < b.s) := blocksOf_sorted_core p ((Prog.wf_iff p).mp h).1 i
+
+theorem getBlocks_prog {p : Prog Tok} (h : p.wf = true) (hpos : PosSorted p.flat) :
+    getBlocks p.flat = .ok p.blocks := getBlocks_prog_core ((Prog.wf_iff p).mp h).1 hpos
 
 end CL
